@@ -147,6 +147,19 @@ SCHEDULES = {
 }
 
 
+ADAPTIVE_TARGET_N2 = 0.75
+
+
+def schedule_kwargs(name, N):
+    """sample() keyword arguments of a named schedule for N particles."""
+    kw = dict(SCHEDULES[name])
+    if kw.get("adaptive") and N == 2:
+        # with two particles ESS/N >= 1/2 always: the default target 0.5 would make
+        # every adaptive run a single full step
+        kw.setdefault("target_efficiency", ADAPTIVE_TARGET_N2)
+    return kw
+
+
 class RunEnv:
     """Everything one execution of sampler.sample() touches."""
 
@@ -237,7 +250,7 @@ class RunEnv:
 
     def sample_kwargs(self):
         cfg = self.cfg
-        kw = dict(SCHEDULES[cfg["schedule"]])
+        kw = schedule_kwargs(cfg["schedule"], self.N)
         if cfg.get("n_final"):
             kw["n_final_samples"] = self.N + 1
         if self.sampler_name == "MiniPCNSMC":
